@@ -6,11 +6,13 @@ from . import core, dp
 
 PID = "C08"
 mods = []
+holes = []
 
 
 def gen(rng, tier):
     lines, cases = [], []
     mods.clear()
+    holes.clear()
     n = 60 if tier == "quick" else 4000
     for i in range(n):
         # three datasets sharing some columns; the third may lack a group-by column
@@ -62,6 +64,12 @@ def gen(rng, tier):
             enc = lambda gb: "GB %d%s" % (len(gb), "".join(" " + core.enc_str(c) for c in gb))
             lines.append("QMOD %s %s %s %s %s %s THEN %s %s" % (mid, dss[0].did, w, m, dp.enc_expr(e1), enc(gb1), dp.enc_expr(e2), enc(gb2)))
             mods.append(mid)
+        # executed while an operand is still missing, completed in place, executed again
+        eh = dp.rand_expr(rng, leaves, rng.randrange(1, 4))
+        hid = "%s.h0" % base
+        gbh = [rng.choice(cols)] if rng.random() < 0.5 else []
+        lines.append("QHOLE %s %s %s %s %s GB %d%s" % (hid, dss[0].did, rng.choice(dp.WRITERS), rng.choice(dp.MODES + ["cached"]), dp.enc_expr(eh), len(gbh), "".join(" " + core.enc_str(c) for c in gbh)))
+        holes.append(hid)
         for d in dss:
             lines.append("DROP " + d.did)
     return lines, cases
@@ -98,7 +106,21 @@ def run(rep, scratch, tier, seed, replay=None):
         f = impl.get(("QVF", qid))
         if f != "SAME":
             bad.append((qid, -1, f, None, "SAME"))
-    for mid in ([] if replay else mods):
+    for hid in ([] if replay else holes):
+        for j in range(2):
+            a, b = impl.get(("QH", "%s.%d" % (hid, j))), model.get(("QH", "%s.%d" % (hid, j)))
+            nexec += 1
+            if a != b:
+                i0 = next(i for i, l in enumerate(lines) if l.startswith("DATASET %s_0 " % hid.split(".")[0]))
+                blk = lines[i0:i0 + 1 + int(lines[i0].split()[2])] + [l for l in lines if l.startswith("QHOLE") and l.split()[1] == hid]
+                rep.violation("correspondence", "a Query %s (%s): implementation %s, a fresh query (model) %s" % (
+                    ["executed while one operand was missing", "completed in place by its caller after a rejected execution and executed again"][j], hid, (a or "NONE")[:200], (b or "NONE")[:200]),
+                    {"lines": blk, "cases": [[hid]], "impl": a, "model": b})
+                bad.append((hid + ".m", j, a, None, b))
+                break
+        if bad:
+            break
+    for mid in ([] if replay or bad else mods):
         for j in range(4):
             a, b = impl.get(("QM", "%s.%d" % (mid, j))), model.get(("QM", "%s.%d" % (mid, j)))
             nexec += 1
